@@ -375,6 +375,7 @@ def start_rules(ctx, f, tag=""):
     ctx.floor("START-EVENT", tag + "chains passing Some(event)", n_some, 1)
 
     notify_rule(ctx, f, start, tag)
+    reader_after_start(ctx, f, "START-AWAITED", tag)
 
 
 def awaited_rule(ctx, f, body, call, evt, tag):
@@ -433,6 +434,30 @@ def awaited_rule(ctx, f, body, call, evt, tag):
             ctx.ob("START-AWAITED", key + ":await-before-socket-reader", r.b not in reach,
                    "the socket reader is started only after the dispatcher reported its subscription" if r.b not in reach else
                    "init_socket_reader is reachable from start_object_server without awaiting the listener", r.where)
+
+
+def reader_after_start(ctx, f, rule, tag=""):
+    """The socket reader of a freshly built connection is started only after every `start_object_server` of the same
+    constructor: a method call read before the dispatcher has subscribed goes to the unfiltered stream only and is
+    never answered (seeded change C26b moved `init_socket_reader` above the object-server block)."""
+    start = ctx.one(f.find(name="start_object_server", adt=CONN, trait=""), "Connection::start_object_server")
+    n = 0
+    for b in f.all_bodies("zbus"):
+        readers = [c for c in mir.calls(b) if c.is_("init_socket_reader") and CONN in c.callee]
+        starts = [c for c in mir.calls(b) if (c.c.get("res") or c.c.get("fn")) == start.id
+]
+        if not readers or not starts:
+            continue
+        for r in readers:
+            after = mir.reachable(b, list(mir.succs(b)[r.b]))
+            for st in starts:
+                n += 1
+                bad = st.b in after and st.b != r.b
+                ctx.ob(rule, "%sreader-not-before-object-server-start:%s" % (tag, b.root), not bad,
+                       "init_socket_reader cannot precede start_object_server" if not bad else
+                       "start_object_server is reachable after init_socket_reader: the reader runs before the dispatcher "
+                       "has subscribed, a call already in the transport is never dispatched nor answered", r.where)
+    ctx.floor(rule, tag + "constructors that start both the object server and the socket reader", n, 1)
 
 
 def notify_rule(ctx, f, start, tag):
